@@ -16,7 +16,14 @@ func (k Keeper) CompleteBatch(ctx sdk.Context, requestContext types.RequestConte
 	requestContext.BatchState = types.BATCHCOMPLETED
 
 	if len(requestContext.ModuleName) != 0 {
+		// the owning module may act on its context (pause, kill, update it) when it is handed the result:
+		// store the completed batch first and carry on with the context as the callback left it
+		k.SetRequestContext(ctx, requestContextID, requestContext)
 		k.Callback(ctx, requestContextID)
+
+		if updated, found := k.GetRequestContext(ctx, requestContextID); found {
+			requestContext = updated
+		}
 	}
 
 	batchState := types.BatchState{
